@@ -113,6 +113,53 @@ pub fn m_tree(model: &AutosarModel, t: &Tree, deep: bool) -> Vec<Viol> {
         }
     }
     if deep {
+        // next_sibling(): after an element was returned, skip its subtree; expected from the preorder listing
+        let n = t.nodes.len();
+        let sub_end = |i: usize| -> usize {
+            let mut j = i + 1;
+            while j < n && t.nodes[j].depth > t.nodes[i].depth {
+                j += 1;
+            }
+            j
+        };
+        for (salt, maxd) in [(1u64, 0usize), (2, 0), (3, 3)] {
+            let listing: Vec<usize> = (0..n).filter(|i| maxd == 0 || t.nodes[*i].depth <= maxd).collect();
+            let mut expect_ns: Vec<(usize, Element)> = Vec::new();
+            let mut flags: Vec<bool> = Vec::new();
+            let mut k = 0;
+            while k < listing.len() {
+                let i = listing[k];
+                expect_ns.push((t.nodes[i].depth, t.nodes[i].elem.clone()));
+                let skip = i > 0 && (i as u64).wrapping_mul(0x9E37_79B9_7F4A_7C15).wrapping_add(salt.wrapping_mul(0xD1B5_4A32_D192_ED03)).rotate_left(23) % 3 == 0;
+                flags.push(skip);
+                if skip {
+                    let end = sub_end(i);
+                    while k < listing.len() && listing[k] < end {
+                        k += 1;
+                    }
+                } else {
+                    k += 1;
+                }
+            }
+            let mut it = if maxd == 0 { model.elements_dfs() } else { model.elements_dfs_with_max_depth(maxd) };
+            let mut got_ns: Vec<(usize, Element)> = Vec::new();
+            let mut cur = it.next();
+            while let Some(item) = cur {
+                got_ns.push(item);
+                if got_ns.len() > n + 1 {
+                    break;
+                }
+                cur = if flags.get(got_ns.len() - 1).copied().unwrap_or(false) { it.next_sibling() } else { it.next() };
+            }
+            if got_ns != expect_ns {
+                let kk = got_ns.iter().zip(expect_ns.iter()).position(|(a, b)| a != b).unwrap_or(got_ns.len().min(expect_ns.len()));
+                out.push(v(
+                    "tree/dfs-next_sibling-differs",
+                    if maxd == 0 { "" } else { "max-depth" },
+                    format!("elements_dfs (max depth {maxd}) driven with next_sibling() after selected elements yields {} items, expected {}; first difference at item {kk}", got_ns.len(), expect_ns.len()),
+                ));
+            }
+        }
         // element scoped iterators on a few inner nodes
         let step = (t.nodes.len() / 5).max(1);
         for i in (0..t.nodes.len()).step_by(step) {
